@@ -203,9 +203,14 @@ class Minimiser(object):
       explicit['picks'][tag] = dict(self.ddmin_list(items, t))
     shrink = getattr(self.mod, 'shrink_plan', None)
     if shrink is not None:
-      for cand in shrink(plan):
-        if self.fails(cand, explicit) is not None:
-          plan = cand
+      progress = True
+      while progress and self.runs < self.budget_runs and time.time() < self.deadline:
+        progress = False
+        for cand in shrink(plan):
+          if self.fails(cand, explicit) is not None:
+            plan = cand
+            progress = True
+            break
     return plan, explicit
 
 
